@@ -39,7 +39,7 @@ def cases(draw):
     sched = draw(conc.schedules(300))
     return {"role": draw(st.sampled_from(["client", "server"])), "msgs": msgs, "seg": seg, "cuts": sorted(set(cuts)),
             "consumers": draw(st.sampled_from([1, 1, 1, 2])), "sched": sched, "lines": draw(st.booleans()) if sched else False,
-            "consumers_first": draw(st.booleans())}
+            "consumers_first": draw(st.booleans()), "holds": draw(conc.holds())}
 
 
 def build_stream(case):
@@ -111,6 +111,7 @@ def run_one(case):
         # generated part
         w.sched.choices = list(case["sched"])
         w.sched.choice_i = 0
+        conc.apply_holds(w, case.get("holds"))
         w.feed(data, cuts)
         if not case["consumers_first"]:
             start_consumers()
@@ -185,6 +186,8 @@ def _collect(shard, seed, n):
             f.add("prefix-with-switch")
         if info.get("line_switches"):
             f.add("preempted-at-source-line")
+        if case.get("holds"):
+            f.add("targeted-delay")
         nt = bool(f & {"message-spans-reads", "messages-share-a-read"}) and "prefix-with-switch" in f
         col.record(case, vs, nontrivial=nt, classes=sorted(f))
         col.extra["scheduling_steps"] = col.extra.get("scheduling_steps", 0) + info.get("steps", 0)
@@ -196,7 +199,7 @@ def _collect(shard, seed, n):
 
 
 def main(ctx):
-    col = common.run_shards(_collect, 8 if ctx.quick else 16, ctx.seed, n=40 if ctx.quick else 1500)
+    col = common.run_shards(_collect, 8 if ctx.quick else 16, ctx.seed, n=80 if ctx.quick else 2500)
     for path, rec in common.load_replays(PID):
         col.record(rec["case"], run_case(rec["case"]), nontrivial=True, classes=["replay"])
     ctx.required_classes = ["message-spans-reads", "messages-share-a-read", "prefix-with-switch", "preempted-at-source-line",
